@@ -57,6 +57,8 @@ pub struct Settings {
 pub struct Case {
     pub doc: Doc,
     pub s: Settings,
+    /// Some: a control-file wrapper case (doc/s unused)
+    pub control: Option<crate::props::c07c::ControlCase>,
 }
 
 pub fn apply_fmt(f: Fmt, v: &str) -> String {
@@ -583,9 +585,13 @@ impl PropImpl for C07 {
     }
     fn from_enum(&self, _ctx: &mut Ctx, _tier: Tier, _space: usize, index: u64) -> Case {
         let li = (index / GRID) as usize;
-        Case { doc: doc_of_text(GRID_LAYOUTS[li]), s: grid_settings(index % GRID) }
+        Case { doc: doc_of_text(GRID_LAYOUTS[li]), s: grid_settings(index % GRID), control: None }
     }
     fn decode(&self, ctx: &mut Ctx, t: &mut Tape) -> Case {
+        if t.chance(1, 4) {
+            let c = crate::props::c07c::gen_control(ctx, t);
+            return Case { doc: Doc::default(), s: grid_settings(0), control: Some(c) };
+        }
         let s = gen_settings(t);
         let o = doc::DocOpts { max_paras: 3, max_fields: 4, max_lines: 3, min_paras: if matches!(s.level, Level::Doc | Level::DocOnly) { 0 } else { 1 }, ..Default::default() };
         let mut doc = doc::gen_doc(t, &o);
@@ -603,9 +609,12 @@ impl PropImpl for C07 {
                 }
             }
         }
-        Case { doc, s }
+        Case { doc, s, control: None }
     }
     fn finding_of(&self, case: &Case, f: &Failure) -> Option<&'static str> {
+        if case.control.is_some() {
+            return None;
+        }
         let relevant = ["reread-equals-live", "content", "comments-kept", "idempotent-live", "idempotent-reread", "entry-content", "entry-live-value", "field-order"];
         if relevant.contains(&f.assertion.as_str()) && case.doc.paras.iter().flat_map(|p| p.fields.iter()).any(|fl| hash_line_trigger(&fl.value(), &case.s)) {
             return Some(KF_HASH_LINE);
@@ -613,6 +622,11 @@ impl PropImpl for C07 {
         None
     }
     fn classify(&self, ctx: &mut Ctx, case: &Case) {
+        if let Some(c) = &case.control {
+            ctx.set_hash(&(c.doc.render().text, format!("{:?}{:?}{}{:?}", c.level, c.indent, c.immediate_empty_line, c.one_liner)));
+            crate::props::c07c::labels(ctx, c);
+            return;
+        }
         let text = case.doc.render().text;
         ctx.set_hash(&(text, format!("{:?}", case.s)));
         let s = &case.s;
@@ -658,9 +672,15 @@ impl PropImpl for C07 {
         ctx.nontrivial = (d.has_comment() || d.has_multiline() || d.paras.len() >= 2) && non_default;
     }
     fn check(&self, _ctx: &mut Ctx, case: &Case) -> CheckResult {
+        if let Some(c) = &case.control {
+            return crate::props::c07c::check(c);
+        }
         check_case(case)
     }
     fn render(&self, case: &Case) -> String {
+        if let Some(c) = &case.control {
+            return crate::props::c07c::render(c);
+        }
         format!("document {:?}\nsettings {:?}", case.doc.render().text, case.s)
     }
 }
